@@ -181,30 +181,37 @@ Definition aborted_cleanly (r : list effect * final) : bool :=
 Example C07_success_occurs :
   match ex_client ex_env with (_, Success _ _ _) => true | _ => false end = true.
 Proof. vm_compute. reflexivity. Qed.
+Print Assumptions C07_success_occurs.
 
 Example C07_wrong_new_nonce_hash1_aborts : aborted_cleanly (ex_client (tamper 3 flip_last)) = true.
 Proof. vm_compute. reflexivity. Qed.
+Print Assumptions C07_wrong_new_nonce_hash1_aborts.
 
 Example C07_dh_gen_retry_aborts : aborted_cleanly (ex_client (tamper 3 (set_crc crc_gen_retry))) = true.
 Proof. vm_compute. reflexivity. Qed.
+Print Assumptions C07_dh_gen_retry_aborts.
 
 Example C07_server_dh_params_fail_aborts : aborted_cleanly (ex_client (tamper 2 (set_crc crc_dh_fail))) = true.
 Proof. vm_compute. reflexivity. Qed.
+Print Assumptions C07_server_dh_params_fail_aborts.
 
 (* one bit of the encrypted answer flipped: the SHA-1 prefix no longer matches *)
 Example C07_wrong_sha1_prefix_aborts : aborted_cleanly (ex_client (tamper 2 flip_last)) = true.
 Proof. vm_compute. reflexivity. Qed.
+Print Assumptions C07_wrong_sha1_prefix_aborts.
 
 (* the nonce echoed by resPQ altered (byte 4 of the body is the first byte of nonce) *)
 Example C07_wrong_nonce_aborts :
   aborted_cleanly (ex_client (tamper 1 (fun l => firstn 4 l ++ [N.lxor (nth 4 l 0) 128] ++ skipn 5 l))) = true.
 Proof. vm_compute. reflexivity. Qed.
+Print Assumptions C07_wrong_nonce_aborts.
 
 (* no offered fingerprint matches: the last fingerprint is the only real one in a list of one *)
 Example C07_wrong_fingerprint_aborts :
   aborted_cleanly (connect_and_request sha1 aes_enc aes_dec modpow (fun _ => false) ex_split
                      (mkpub (ex_rsa_n + 2) 1) ex_dr ex_env 77 6000000000000000004 0 true (lit "ping")) = true.
 Proof. vm_compute. reflexivity. Qed.
+Print Assumptions C07_wrong_fingerprint_aborts.
 
 (* what cannot be read at all, at each step: the transport error frame, a closed connection, a body with an
    unregistered constructor id, a truncated body, an empty body - an error every time, never a stall *)
@@ -213,3 +220,4 @@ Example C07_unreadable_replies_abort :
     [instead 1 TransportError; instead 3 TransportError; instead 1 Closed; instead 2 Closed;
      instead 1 (Reply []); tamper 2 (set_crc 3735928559); tamper 2 (fun l => firstn (length l - 8) l)] = true.
 Proof. vm_compute. reflexivity. Qed.
+Print Assumptions C07_unreadable_replies_abort.
